@@ -121,6 +121,7 @@ type Exec struct {
 	LastClaimAllFailed []string        // position keys whose claim failed in the last claim_all
 	// Twin (C18): a sibling execution whose alliance module state went through
 	// ExportGenesis -> wipe -> InitGenesis; every later op is applied to both.
+	lastBracket string
 	Twin    *Exec
 	TwinRes *Res
 	ExportA []byte   // export of the original at the fork
